@@ -12,7 +12,7 @@ import importlib.util
 import itertools
 import os
 
-from lib import vf
+from lib import pylayer, vf
 
 NS = 1_000_000_000
 
@@ -119,6 +119,88 @@ def rps_for(delta):
     return None
 
 
+def session_part(c, thorough):
+    """`through a rate-limited session`: every request of every operation of the sync and async clients is released by
+    the session's policer.  (a) a counting subclass of the library's RPSPolicer passed as `policer=`: the j-th datagram
+    the agent receives must have been preceded by exactly j consultations (deterministic); (b) `limit_rps=`: arrival
+    times at the agent obey the window bound (wall clock, wide slack)."""
+    import sys
+    sys.path.insert(0, os.path.join(vf.VERIF, "harness", "py"))
+    import ber
+    ents = [[[1, 3, 6, 1, 2, 1, 2, 2, 1, 10, i], ber.enc_value("int", i).hex()] for i in range(1, 8)]
+    mib = {"entries": ents, "cap": 3, "pad": 0}
+    base = "1.3.6.1.2.1.2.2.1.10"
+    one = base + ".1"
+
+    def steps(ver):
+        st = [{"op": "get", "args": [one], "mib": mib}, {"op": "get_many", "args": [[one, base + ".2"]], "mib": mib},
+              {"op": "getnext", "args": [base], "mib": mib, "cap": 50}, {"op": "fetch", "args": [base], "mib": mib, "cap": 50},
+              {"op": "get", "args": [one], "mib": mib}]
+        if ver != "v1":
+            st.insert(3, {"op": "getbulk", "args": [base, 2], "mib": mib, "cap": 50})
+        return st
+    scs = []
+    v3 = {"user": "u", "auth": None, "priv": None, "engine_id": "80001f8880aabbccdd", "agent_engine_id": "80001f8880aabbccdd", "boots": 1, "time": 1}
+    for ver in ("v1", "v2c", "v3"):
+        for mode in ("sync", "async"):
+            for kw in ({}, {"allow_bulk": False}, {"max_repetitions": 2}):
+                sc = {"version": ver, "mode": mode, "timeout": 0.5, "policer": "counting", "session_kw": kw, "steps": steps(ver), "_kind": "counting"}
+                if ver == "v3":
+                    sc["v3"] = v3
+                scs.append(sc)
+    rps = 25.0
+    for ver in ("v1", "v2c"):
+        for mode in ("sync", "async"):
+            sc = {"version": ver, "mode": mode, "timeout": 0.5, "session_kw": {"limit_rps": rps}, "_kind": "timed",
+                  "steps": [{"op": "fetch", "args": [base], "mib": dict(mib, cap=2), "cap": 50}, {"op": "get", "args": [one], "mib": mib}]}
+            scs.append(sc)
+    res, log = vf.run_api_worker("C19", {"scenarios": [{k: v for k, v in sc.items() if not k.startswith("_")} for sc in scs]})
+    if res is None:
+        c.errors.append("API worker failed: " + log[-1500:])
+        return 0
+    n = 0
+    for sc, rec in zip(scs, res["records"]):
+        if "driver_error" in rec:
+            c.errors.append("API driver error: " + rec["driver_error"])
+            continue
+        label = "%s/%s session %s" % (sc["version"], sc["mode"], sc.get("session_kw") or "")
+        seen = 0
+        times = []
+        for st, out in zip(sc["steps"], rec["steps"]):
+            if out["kind"] == "EXC" or (out["kind"] == "ITER" and out["ending"] != "STOP"):
+                c.violation("%s: %s did not complete against a well-behaved agent (%s)" % (label, st["op"], out.get("exc") or out.get("ending")),
+                            {"scenario": {k: v for k, v in sc.items() if not k.startswith("_")}, "step": st, "outcome": {k: out[k] for k in ("kind", "exc", "ending") if k in out}}, key="session-op-fails")
+                break
+            for a in out["arrivals"]:
+                seen += 1
+                n += 1
+                times.append(a["t"])
+                c.count(("session", label, st["op"], seen), True)
+                if sc["_kind"] == "counting" and a["policed"] != seen:
+                    c.violation("%s: request %d of the session (%s) reached the agent after %d policer consultations; every request must be released by the policer exactly once"
+                                % (label, seen, st["op"], a["policed"]),
+                                {"scenario": {k: v for k, v in sc.items() if not k.startswith("_")}, "step": st, "request_no": seen, "policer_consultations": a["policed"]},
+                                key="session-unpoliced:" + st["op"] if a["policed"] < seen else "session-policed-twice:" + st["op"])
+                    break
+        if sc["_kind"] == "timed" and len(times) >= 4:
+            iv = 1.0 / rps
+            for k in (2, 3, len(times) - 1):
+                for i in range(0, len(times) - k):
+                    span = times[i + k] - times[i]
+                    if span <= (k - 1) * iv - 0.6 * iv:
+                        c.violation("%s (limit_rps=%g): requests %d..%d reached the agent within %.1f ms, the bound is more than %.1f ms"
+                                    % (label, rps, i + 1, i + k + 1, span * 1000, (k - 1) * iv * 1000),
+                                    {"scenario": {kk: v for kk, v in sc.items() if not kk.startswith("_")}, "arrival_times_ms": [round((t - times[0]) * 1000, 2) for t in times]},
+                                    key="session-rate:limit_rps")
+                        break
+                else:
+                    continue
+                break
+    c.coverage["session_requests_observed"] = n
+    c.assumptions.append("session part (b): arrival times at a loopback agent stand for release times; the window bound is tested with 0.6 interval of slack at 25 rps")
+    return n
+
+
 def main(argv):
     c = vf.Check("C19", argv)
     thorough = c.tier == "thorough"
@@ -222,6 +304,14 @@ def main(argv):
             if not any("ctor" in b for b in c.broken):
                 c.broken = list(c.broken) + ["correspondence: generated model and policer.py differ on ctor rps=%r" % rps]
     c.sample({"ctor": [[r, l] for r, l in zip(ctor_cases[:8], mout[:8])]})
+    n_sess = session_part(c, thorough)
+    # the Python layer alone, on scripted socket results, against Model.PyLayer (policing discipline of every operation)
+    okc, logc, cexe = vf.ocaml_build("codec", "codec_model", "codec_driver")
+    if not okc:
+        c.errors.append("building the extracted codec model failed: " + logc[-1500:])
+        return c.finish("n/a")
+    n_pl, d_pl = pylayer.run(c, cexe, c.rng, 2500 if thorough else 600, "C19")
+    disagreements += d_pl
     c.assumptions += [
         "float quotient NS/rps is an input of the constructor model; only rps whose int(NS/rps) is known independently are used for histories",
         "time.sleep / asyncio.sleep and perf_counter_ns are replaced by a logical clock in the correspondence run",
@@ -229,9 +319,17 @@ def main(argv):
     ]
     return c.finish(
         rule="exhaustive: every history of length %d over gaps 0..2*delta+1 for delta 1..%d (%d histories), plus %d random "
-             "boundary-biased histories (gaps <, =, > and multiples of the interval), plus %d constructor arguments; "
-             "non-trivial = at least one call slept and at least one later call did not; distinct by (delta, t0, gaps)"
-             % (L, D, n_exh, n_rand, len(ctor_cases)),
+             "boundary-biased histories (gaps <, =, > and multiples of the interval), plus %d constructor arguments; %d requests of "
+             "real rate-limited sessions (get, get_many, getnext, getbulk, fetch x sync/async x v1/v2c/v3 x allow_bulk/max_repetitions) "
+             "each counted against the consultations of the session's policer; non-trivial = at least one call slept and at least one later call did not; distinct by (delta, t0, gaps)"
+             % (L, D, n_exh, n_rand, len(ctor_cases), n_sess),
         extra={"disagreements": disagreements, "histories_with_sleep": n_sleepers, "exhaustive_part": n_exh,
                "exhaustive": False, "traces_validated_against_impl": len(cases)},
         trusted=["tools/py2coq.py (Python ast -> Gallina), validated on every run by running the generated model against policer.py"])
+
+
+def api_main(g, job):
+    import sys
+    sys.path.insert(0, os.path.join(vf.VERIF, "harness", "py"))
+    import scen
+    return scen.api_main_generic(g, job)
